@@ -309,8 +309,9 @@ func UpdateCheckpoint(outCli client.Redis, localCheckpoint string, ids []string)
 			Offset:  -1,
 			Version: config.Version,
 		}
+		cpDb := -1
 		if len(cpName) > 0 { // restore old checkpoint
-			cpKv, _, err = GetCheckpoint(outCli, cpName, ids)
+			cpKv, cpDb, err = GetCheckpoint(outCli, cpName, ids)
 			if err != nil {
 				return err
 			}
@@ -319,6 +320,13 @@ func UpdateCheckpoint(outCli client.Redis, localCheckpoint string, ids []string)
 		oldId := cpKv.RunId
 		cpKv.Key = localCheckpoint
 		cpKv.RunId = id1
+		if cpDb >= 0 {
+			// GetCheckpoint leaves the connection in whichever database it scanned last;
+			// the checkpoint must stay in the database it was found in, replay resumes there
+			if err = redis.SelectDB(outCli, uint32(cpDb)); err != nil {
+				return err
+			}
+		}
 		err = SetCheckpoint(outCli, cpKv)
 		if err != nil {
 			return err
